@@ -170,7 +170,7 @@ func main() {
 	defer worker.Close()
 	hx.Main(hx.Family{
 		Name:     "c21",
-		Rule:     "programs (<= ~25 nodes) generated type-directed over int/pair/higher-order builtins: calls, lambdas (nested, shadowing, called directly, passed, returned), partial applications at several levels, calls of calls, pipelines; 1 in 4 gets one ill-typing edit (replace / drop / add / swap argument, unbound symbol, literal as function); templates for the MaxArgs boundary and for closures outliving their activation. non-trivial = contains a lambda, a partial application, a call of a call or >= 29 parameters; distinct = by hash of the program text",
+		Rule:     "programs (<= ~25 nodes) generated type-directed over int/pair/higher-order builtins: calls, lambdas (nested, shadowing, called directly, passed, returned), partial applications at several levels, calls of calls, pipelines; 1 in 4 with the real variadic functions (collection values, call f args…); 1 in 25 a call without arguments of any builtin at the root / as an argument; 1 in 4 gets one ill-typing edit (replace / drop / add / swap argument, unbound symbol, literal as function); templates for the MaxArgs boundary and for closures outliving their activation. non-trivial = contains a lambda, a partial application, a call of a call or >= 29 parameters; distinct = by hash of the program text",
 		Quick:    4000,
 		Thorough: 60000,
 		Corpus: func(c *hx.Ctx) {
